@@ -3,7 +3,7 @@
    then a reader consumes the text in fragments of arbitrary sizes (action Frag(k)) through the character-level
    automaton of MidicatLine, and finally meets EOF.  Cases:
      rt  : texts Concat(Line(r_i)) of small record sequences         -- promised: the records, one per line
-     mut : one line of such a text mutated by one of the property's kinds -- promised: Err for the malformed line
+     mut : one line of such a text mutated by one of the property's kinds (src = the kind) -- promised: Err for that line
            (a line without terminator swallows the next one), the other records unchanged, in place
      raw : every string over a small alphabet                        -- promised: what the declarative grammar says
    Invariants: the results so far are a prefix of the promise and appear exactly when the LF is consumed (one record
@@ -37,9 +37,9 @@ Muts(ln) == {g \in [kind : {"oddhex", "nonhex", "lower", "nosep", "noterm"}, at 
 SegsWith(n, i, g) == [j \in 1..n |-> IF j = i THEN [kind |-> g.kind, orig |-> j, at |-> g.at, ch |-> g.ch]
                                      ELSE [kind |-> "ok", orig |-> j, at |-> 0, ch |-> 0]]
 MutTable == [r \in RecSet(MuTS, MuB) |-> Muts(LineOf(r))]
-MutInputs == UNION {UNION {{<<rs, SegsWith(Len(rs), i, g)>> : g \in MutTable[rs[i]]} : i \in 1..Len(rs)}
+MutInputs == UNION {UNION {{<<rs, SegsWith(Len(rs), i, g), g.kind>> : g \in MutTable[rs[i]]} : i \in 1..Len(rs)}
                     : rs \in SeqsUpTo(RecSet(MuTS, MuB), 1, MuLen)}
-MutCases(l) == {[src |-> "mut", text |-> SegsText(x[1], x[2]), exp |-> Promised(x[1], x[2], l)] : x \in MutInputs}
+MutCases(l) == {[src |-> x[3], text |-> SegsText(x[1], x[2]), exp |-> Promised(x[1], x[2], l)] : x \in MutInputs}
 RawCases(l) == {[src |-> "raw", text |-> t, exp |-> DenoteText(t, l)] : t \in SeqsUpTo(RawAlphabet, 0, RawLen)}
 
 ASSUME \A x \in MutInputs : SegsOk(x[1], x[2])
@@ -66,5 +66,5 @@ Lossless   == done => out = exp
 CallLevel  == pos = 0 => ReadAll(text, lc) = exp                     \* successive calls, each starting at the next line
 Grammar    == pos = 0 => DenoteText(text, lc) = exp                  \* encoder and mutation promises agree with the grammar
 \* every mut case really contains a malformed line unless it is the lower-case one and lc holds
-MutHasError == (src = "mut" /\ \A i \in 1..Len(text) : ~IsLoHex(text[i])) => \E i \in 1..Len(exp) : exp[i].kind = "err"
+MutHasError == (src \notin {"rt", "raw"} /\ \A i \in 1..Len(text) : ~IsLoHex(text[i])) => \E i \in 1..Len(exp) : exp[i].kind = "err"
 =============================================================================
